@@ -90,10 +90,45 @@ pub fn gen_seq(c: &mut Choices) -> u64 {
     }
 }
 
+/// A key derived from a reserved key by one small edit (never a reserved key itself).
+pub fn derived_neighbour(c: &mut Choices) -> Vec<u8> {
+    let r: &[u8] = *c.pick(&RESERVED[..]);
+    let mut k = r.to_vec();
+    match c.below(8) {
+        0 | 1 => k.push(*c.pick(b"6640s_-\0 1")),
+        2 => {
+            k.pop();
+        }
+        3 => {
+            let l = k.len() - 1;
+            k[l] = k[l].wrapping_add(if c.bool() { 1 } else { 0xff });
+        }
+        4 => k.insert(0, *c.pick(b"6x_ \0")),
+        5 => k.make_ascii_uppercase(),
+        6 => k.extend_from_slice(r),
+        _ => {
+            let i = c.below(k.len());
+            k[i] ^= 0x20;
+        }
+    }
+    if RESERVED.iter().any(|x| *x == k.as_slice()) {
+        k.push(b'6');
+    }
+    k
+}
+
 pub fn gen_custom_key(c: &mut Choices) -> Vec<u8> {
-    match c.below(6) {
+    match c.below(8) {
         0 => c.pick(&KNOWN_KEYS).to_vec(),
         1 => c.pick(&NEIGHBOUR_KEYS).to_vec(),
+        6 => derived_neighbour(c),
+        7 => {
+            // keys whose RLP string header changes form (55/56 bytes) and one long key
+            let n = *c.pick(&[54usize, 55, 56, 57, 60, 120]);
+            let mut k = vec![b'k'; n];
+            k[0] = *c.pick(b"akz");
+            k
+        }
         2 => vec![*c.pick(&[0x00u8, 0x7f, 0x80, 0xff, b'a', b'z'])],
         3 => vec![],
         _ => {
